@@ -239,6 +239,7 @@ func runC11Compose(t *testing.T, c simrt.Chooser, o Opts) *Out {
 		if live {
 			argv := aw.Argv
 			aw.Argv = append(append(append([]string{}, argv[:len(argv)-1]...), "--live", "400ms"), argv[len(argv)-1])
+			aw.maxSteps = 3_000_000
 			aw.SigintAt = "1s"
 		}
 		aw.NumCPU = p.pick("numcpu", 1, 2, 8)
